@@ -46,7 +46,30 @@ var c12hValid = []string{
 	"GET http://a.ok.example/u HTTP/1.1\r\nHost: a.ok.example\r\nConnection: Upgrade\r\nUpgrade: websocket\r\n\r\n",
 }
 
+// genLongHost: a syntactically fine but very long authority made of ASCII and multi-byte UTF-8 letters (length
+// around the limits a host name, a DNS name or a metric label may have).
+func genLongHost(t *tape.Tape) string {
+	runes := []string{"a", "b", "-", "x", "é", "ü", "ж", "中", "日", "😀"}
+	want := []int{60, 250, 253, 254, 255, 256, 260, 300, 1000}[t.Intn(9)] + t.Intn(4)
+	var sb strings.Builder
+	for sb.Len() < want {
+		if sb.Len()%40 == 39 {
+			sb.WriteByte('.')
+			continue
+		}
+		sb.WriteString(runes[t.Pick(6, 3, 1, 2, 2, 2, 2, 2, 1, 1)])
+	}
+	return sb.String()
+}
+
 func genC12hBlob(t *tape.Tape) ([]byte, string) {
+	if t.Chance(1, 12) {
+		h := genLongHost(t)
+		if t.Chance(1, 2) {
+			return []byte("CONNECT " + h + ":80 HTTP/1.1\r\nHost: " + h + ":80\r\n\r\n"), "long-host-connect"
+		}
+		return []byte("GET http://" + h + "/x HTTP/1.1\r\nHost: " + h + "\r\n\r\n"), "long-host-get"
+	}
 	switch t.Pick(6, 3, 2, 2, 4, 1) {
 	case 0: // mutated valid request
 		b := []byte(c12hValid[t.Intn(len(c12hValid))])
